@@ -120,7 +120,24 @@ def build(key, variant, i):
     cls = getattr(mp4, variant)
     kw = {f: int(i[f]) for f in FIELDS[variant] if f in i}
     extra_env = {}
-    if variant == 'TrackFragmentRunBox':
+    tfhd = None
+    if variant == 'TrackFragmentRunBox' and len(parts) > 1 and parts[1].endswith('samples'):
+        k = int(parts[1][0])
+        flags_value = int(parts[2][5:], 16)
+        SF = ('duration', 'size', 'flags', 'composition_time_offset')
+        samples = []
+        for j in range(k):
+            vals = {f: int(i[f's{j}_{f}']) for f in SF}
+            extra_env.update({f's{j}_{f}': v for f, v in vals.items()})
+            samples.append(mp4.TrackSample(index=j, offset=0, **vals))
+        kw.update(sample_count=k, samples=samples, data_offset=int(i['data_offset']), first_sample_flags=int(i['first_sample_flags']))
+        i = dict(i, flags=flags_value)
+        tfhd = NS(default_sample_duration=int(i['tfhd_duration']), default_sample_size=int(i['tfhd_size']),
+                  default_sample_flags=int(i['tfhd_flags']))
+        extra_env.update(tfhd_duration=tfhd.default_sample_duration, tfhd_size=tfhd.default_sample_size,
+                         tfhd_flags=tfhd.default_sample_flags, sample_duration=lambda smp: smp.duration,
+                         no_duration=lambda smp: smp.duration is None)
+    elif variant == 'TrackFragmentRunBox':
         kw.update(sample_count=0, samples=[])
     if variant == 'TrackEncryptionBox':
         from dashlive.utils.binary import HexBinary
@@ -164,7 +181,7 @@ def build(key, variant, i):
         extra_env['payload'] = int(i['payload'])
     box = cls(atom_type=FOURCC[variant], position=0, size=0, version=int(i['version']), flags=int(i['flags']), **kw)
     moof = NS(position=int(i.get('moof_position', 0)))
-    parent = NS(find_atom=lambda name: moof, tfhd=None)
+    parent = NS(find_atom=lambda name: moof, tfhd=tfhd)
     if variant == 'TrackFragmentHeaderBox':
         box.find_atom = lambda name: moof
     dest = Stream()
